@@ -189,8 +189,11 @@ STD_MODELS = [
 
 class Law(object):
     """What a call of a function the engine cannot expand does to the container words of its first
-    two arguments and what it returns.  `alts` is a list of cases (one when all normal exits agree):
-      case = {'size': {k: term}, 'ret': ('abs', t) | ('rel', k, rho) | None, 'conds': ((cond, bool), ...)}
+    two arguments, what it returns and which element operations it performs.  `alts` is a list of
+    cases (one when all normal exits agree):
+      case = {'size': {k: term}, 'ret': ('abs', t) | ('rel', k, rho) | None,
+              'effects': tuple of range effects | None (unknown), 'dataf': {k: final data term},
+              'conds': ((cond, bool), ...)}
     `keep[k]` = field tags of object k that are unchanged on every exit."""
     __slots__ = ('name', 'cells', 'keep', 'alts', 'exits', 'why')
 
@@ -203,8 +206,160 @@ class Law(object):
         self.why = ''
 
 
-MAX_ALTS = 12
-MAX_COMBOS = 48
+MAX_ALTS = 16
+MAX_COMBOS = 64
+ELEM_EFFECTS = ('ELEM_COPY', 'ELEM_MOVE', 'ELEM_DEFAULT', 'ELEM_CONV', 'ELEM_COPY_ASSIGN', 'ELEM_MOVE_ASSIGN',
+                'ELEM_CONV_ASSIGN', 'ELEM_DTOR', 'ELEM_SWAP')
+
+# A range effect: (what, how, a, b, srckind, sa, sb, direction)
+#   what in construct/assign/destroy/swap, how in copy/move/default/conv/'' ;
+#   [a, b) destination bytes; srckind None | 'fill' (sa = the one source object) | 'range' ([sa, sb));
+#   direction +1 ascending / -1 descending order of the element-wise operation.
+
+
+def eff_subst(e, f):
+    (what, how, a_, b_, sk, sa, sb, d) = e
+    return (what, how, subst(a_, f, {}), subst(b_, f, {}), sk,
+            subst(sa, f, {}) if sa is not None else None, subst(sb, f, {}) if sb is not None else None, d)
+
+
+def eff_empty(e, eqs):
+    return e[3] is not None and same(e[2], e[3], eqs)
+
+
+def same_opt(a, b, eqs):
+    if a is None or b is None:
+        return a is None and b is None
+    return same(a, b, eqs)
+
+
+def effects_same(E, C, eqs):
+    """Is the effect list C, read under the equalities eqs, the list E (empty ranges dropped)?"""
+    if E is None or C is None:
+        return E is None and C is None
+    E2 = [e for e in E if not eff_empty(e, eqs)]
+    C2 = [e for e in C if not eff_empty(e, eqs)]
+    if len(E2) != len(C2):
+        return False
+    for x, y in zip(E2, C2):
+        if x[0] != y[0] or x[1] != y[1] or x[4] != y[4]:
+            return False
+        if not (same(x[2], y[2], eqs) and same_opt(x[3], y[3], eqs)):
+            return False
+        if x[4] is not None and not same(x[5], y[5], eqs):
+            return False
+        if x[4] == 'range' and not same_opt(x[6], y[6], eqs):
+            return False
+    return True
+
+
+def solve_for(at, eqs):
+    """at == term, from one of the equalities (all == 0) that mentions the atom linearly."""
+    for e in eqs:
+        for a, c in e[2]:
+            if a == at:
+                rest = lin_sub(e, ('L', 0, ((at, c),)))
+                if at in atoms_of(rest):
+                    continue
+                return sym.mk_divx(lin_scale(rest, -1), c) if c > 0 else sym.mk_divx(rest, -c)
+    return None
+
+
+def finalize_ops(ops, loop_gen, fname, eqs, itmap=None):
+    """Operation records of one path -> list of range effects, or None when something on the path
+    is not understood (an opaque callee that may touch elements, a loop without a regular body)."""
+    out = []
+    i = 0
+    n = len(ops)
+    while i < n:
+        op = ops[i]
+        tag = op[0]
+        if tag == 'unknown':
+            return None
+        if tag == 'eff':
+            if op[1] is None:
+                return None
+            out.extend(op[1])
+            i += 1
+            continue
+        if tag == 'prim':
+            _, what, how, dst, src = op
+            out.append((what, how, dst, None, 'fill' if src is not None else None, src, None, 1))
+            i += 1
+            continue
+        if tag == 'bytes':
+            _, fn, dst, src, nb = op
+            if fn == 'memset':
+                out.append(('bytefill', '', dst, lin_add(dst, nb), None, None, None, 1))
+            else:
+                out.append(('bytecopy', fn, dst, lin_add(dst, nb), 'range', src, lin_add(src, nb), 0))
+            i += 1
+            continue
+        if tag == 'approx':
+            i += 1
+            continue
+        if tag == 'lr':
+            return None          # re-entry without its head on this path: not understood
+        if tag == 'lh':
+            hdr = op[1]
+            j = None
+            for k in range(i + 1, n):
+                if ops[k][0] == 'lr' and ops[k][1] == hdr:
+                    j = k
+                    break
+                if ops[k][0] == 'lh' and ops[k][1] == hdr:
+                    break
+            if j is None:
+                i += 1           # no complete iteration: what follows is straight-line code
+                continue
+            first = ops[i + 1:j]
+            gens = loop_gen.get((fname, hdr))
+            if not gens or len(gens) != 1:
+                return None
+            gen = list(gens)[0]
+            if len(gen) != len(first) or any(o[0] != 'prim' for o in first) or any(o[0] != 'prim' for o in gen):
+                return None
+            kappa = ('iter', fname, hdr)
+            K = (itmap or {}).get(kappa)
+            if K is None:
+                K = solve_for(kappa, eqs)
+            if K is None:
+                return None
+            zero = lambda a: sym.ZERO if a == kappa else None
+            for fo, go in zip(first, gen):
+                if fo[1] != go[1] or fo[2] != go[2]:
+                    return None
+                if subst(go[3], zero, {}) != fo[3]:
+                    return None
+                if (go[4] is None) != (fo[4] is None) or (go[4] is not None and subst(go[4], zero, {}) != fo[4]):
+                    return None
+                bd = dict(go[3][2]).get(kappa, 0)
+                if bd == 0 or kappa in atoms_of(lin_sub(go[3], ('L', 0, ((kappa, bd),)))):
+                    return None
+                a0 = fo[3]
+                if bd > 0:
+                    ra, rb, d = a0, lin_add(a0, lin_scale(K, bd)), 1
+                else:
+                    ra, rb, d = lin_add(a0, lin_scale(lin_sub(K, L(1)), bd)), lin_add(a0, L(-bd)), -1
+                if go[4] is None:
+                    out.append((fo[1], fo[2], ra, rb, None, None, None, d))
+                    continue
+                sd = dict(go[4][2]).get(kappa, 0)
+                if kappa in atoms_of(lin_sub(go[4], ('L', 0, ((kappa, sd),)))):
+                    return None
+                s0 = fo[4]
+                if sd == 0:
+                    out.append((fo[1], fo[2], ra, rb, 'fill', s0, None, d))
+                elif (sd > 0) != (bd > 0):
+                    return None
+                elif sd > 0:
+                    out.append((fo[1], fo[2], ra, rb, 'range', s0, lin_add(s0, lin_scale(K, sd)), d))
+                else:
+                    out.append((fo[1], fo[2], ra, rb, 'range', lin_add(s0, lin_scale(lin_sub(K, L(1)), sd)), lin_add(s0, L(-sd)), d))
+            i = j + 1
+            continue
+        i += 1
+    return tuple(out)
 
 
 class Laws(object):
@@ -216,7 +371,15 @@ class Laws(object):
         self.orc = eng.oracle
         self.memo = {}
         self.in_progress = set()
-        self.stats = {'laws': 0, 'multi_case_laws': 0, 'no_law': 0, 'restarts': 0}
+        self.stats = {'laws': 0, 'multi_case_laws': 0, 'no_law': 0, 'restarts': 0, 'laws_with_effects': 0}
+
+    def may_touch_elements(self, name):
+        if name is None:
+            return True
+        if name not in self.eng.mod.funcs:
+            # an undefined external that is not an element primitive (allocator, iterator, ...)
+            return False
+        return bool(self.orc.effects.get(name, frozenset()) & set(ELEM_EFFECTS)) or name.startswith('llvm.mem')
 
     # -- inference --------------------------------------------------------------------------
     def law(self, name):
@@ -229,12 +392,19 @@ class Laws(object):
         for (rx, (i0, i1, i2), sgn) in STD_MODELS:
             if rx.search(pretty) and len(f.params) >= 3:
                 lw = Law(name)
-                d = lin_sub(atom(('arg', i1)), atom(('arg', i0)))
-                lw.alts = [{'size': {}, 'ret': ('abs', lin_add(atom(('arg', i2)), lin_scale(d, sgn))), 'conds': ()}]
+                A0, A1, A2 = atom(('arg', i0)), atom(('arg', i1)), atom(('arg', i2))
+                d = lin_sub(A1, A0)
+                how = 'move' if re.search(r'__copy_move(_backward)?<true', pretty) else 'copy'
+                if sgn > 0:
+                    eff = ('assign', how, A2, lin_add(A2, d), 'range', A0, A1, 1)
+                else:
+                    eff = ('assign', how, lin_sub(A2, d), A2, 'range', A0, A1, -1)
+                lw.alts = [{'size': {}, 'ret': ('abs', lin_add(A2, lin_scale(d, sgn))), 'conds': (),
+                            'effects': (eff,), 'dataf': {}}]
                 lw.why = 'standard-library model'
                 self.memo[name] = lw
                 return lw
-        if not self.orc.is_gch(name) or not f.params or not f.blocks:
+        if not f.params or not f.blocks or not (self.orc.is_gch(name) or self.may_touch_elements(name)):
             self.memo[name] = None
             return None
         self.in_progress.add(name)
@@ -249,6 +419,8 @@ class Laws(object):
             self.stats['laws'] += 1
             if len(lw.alts) > 1:
                 self.stats['multi_case_laws'] += 1
+            if all(a['effects'] is not None for a in lw.alts):
+                self.stats['laws_with_effects'] += 1
         return lw
 
     def walk(self, f, rule_factory):
@@ -261,6 +433,7 @@ class Laws(object):
             eng.precall_hook = self.precall
             try:
                 eng.walk(f, [rule], path_limit=4000)
+                rule.finish(f)
                 return rule
             except sym.RestartWalk:
                 self.stats['restarts'] += 1
@@ -314,10 +487,12 @@ class Laws(object):
         # per-exit description
         descr = []
         for ex in exits:
-            d = {'size': {}, 'ret': None}
+            d = {'size': {}, 'ret': None, 'dataf': {}}
             for (k, obj, cells) in objs:
                 if 2 in cells and 2 not in lw.keep[k]:
                     d['size'][k] = ex['val'](cells[2])
+                if 0 in cells and 0 not in lw.keep[k]:
+                    d['dataf'][k] = ex['val'](cells[0])
             rv = ex['rv']
             if rv is not None:
                 if clean(rv):
@@ -332,6 +507,21 @@ class Laws(object):
                     if d['ret'] is None:
                         d['ret'] = ('dirty',)
             descr.append(d)
+        # a buffer obtained inside the callee is the same thing on every path that obtains one: give
+        # it one name, so that paths that differ only in where it was allocated are one case
+        effs = []
+        for d, ex in zip(descr, exits):
+            E = ex['effects']
+            ren = {}
+            for k, t in d['dataf'].items():
+                ta = single_atom(t)
+                if ta is not None and not clean(t):
+                    ren[ta] = atom(('newbuf', k))
+            if ren:
+                if E is not None:
+                    E = tuple(eff_subst(e, lambda x: ren.get(x)) for e in E)
+                d['dataf'] = {k: subst(t, lambda x: ren.get(x), {}) for k, t in d['dataf'].items()}
+            effs.append(E)
         single = {'size': {}, 'ret': None, 'conds': ()}
         multi = False
         for (k, obj, cells) in objs:
@@ -358,33 +548,105 @@ class Laws(object):
                         break
                 if single['ret'] is None and all(d['ret'] is not None and d['ret'][0] != 'dirty' for d in descr):
                     multi = True
-        if not multi:
-            lw.alts = [single]
-        else:
-            # cases: one per distinct (sizes, result) among the exits, guarded by the clean part of
-            # the exit's path condition; components that do unify are shared
-            seen = {}
-            for d, ex in zip(descr, exits):
-                alt = {'size': {}, 'ret': single['ret'], 'conds': ()}
+        # cases by (sizes, result); components that unify are shared
+        groups = []       # [alt, [exit indices]]
+        for i, (d, ex) in enumerate(zip(descr, exits)):
+            alt = {'size': {}, 'ret': single['ret'], 'conds': (), 'effects': None, 'dataf': {}}
+            if multi:
                 for k, v in d['size'].items():
-                    alt['size'][k] = single['size'].get(k, v if clean(v) else None)
-                    if alt['size'][k] is None:
-                        del alt['size'][k]
+                    t = single['size'].get(k, v if clean(v) else None)
+                    if t is not None:
+                        alt['size'][k] = t
                 if alt['ret'] is None and d['ret'] is not None and d['ret'][0] != 'dirty':
                     alt['ret'] = d['ret']
-                conds = tuple((c, v) for (c, v) in ex['conds'] if clean(c))
-                key = (tuple(sorted(alt['size'].items())), alt['ret'])
-                if key in seen:
-                    # same outcome under two conditions: keep only what both establish
-                    o = seen[key]
-                    o['conds'] = tuple(x for x in o['conds'] if x in conds)
-                else:
-                    alt['conds'] = conds
-                    seen[key] = alt
-            lw.alts = list(seen.values())
-            if len(lw.alts) > MAX_ALTS:
+            else:
+                alt['size'] = dict(single['size'])
+            key = (tuple(sorted(alt['size'].items())), alt['ret'])
+            for g in groups:
+                if g[2] == key:
+                    g[1].append(i)
+                    break
+            else:
+                groups.append([alt, [i], key])
+        # refine by element effects where every exit's effects are understood.  Cases are merged
+        # exactly: two cases with the same outcome whose guards are equal, or differ in ONE condition
+        # they decide oppositely, become one case ((c and P) or (not c and P) == P); "same outcome"
+        # may use the equalities of the absorbed path (its outcome is the other's formula there).
+        refined = []
+        approx = False
+        all_known = all(E is not None for E in effs)
+        if all_known:
+            for (alt, idxs, key) in groups:
+                items = []
+                for i in idxs:
+                    ci = frozenset((c, v) for (c, v) in exits[i]['conds'] if clean(c))
+                    items.append({'E': effs[i], 'df': dict(descr[i]['dataf']), 'c': ci, 'eqs': list(exits[i]['eqs']), 'ids': [i]})
+
+                def formula_covers(A, B):
+                    """A's outcome formula, read in B's states, is B's outcome"""
+                    return effects_same(B['E'], A['E'], B['eqs']) and set(A['df']) == set(B['df']) and \
+                        all(same(B['df'].get(k), v, B['eqs']) for k, v in A['df'].items())
+
+                def try_merge(items, exact):
+                    for x in range(len(items)):
+                        for y in range(x + 1, len(items)):
+                            A, B = items[x], items[y]
+                            sd = A['c'] ^ B['c']
+                            if exact:
+                                if len(sd) == 2:
+                                    (c1, v1), (c2, v2) = tuple(sd)
+                                    if c1 != c2 or v1 == v2:
+                                        continue
+                                elif len(sd) != 0:
+                                    continue
+                            if len(A['E']) < len(B['E']):
+                                A, B = B, A
+                            if formula_covers(A, B):
+                                rep_, oth = A, B
+                            elif formula_covers(B, A):
+                                rep_, oth = B, A
+                            else:
+                                continue
+                            m = {'E': rep_['E'], 'df': rep_['df'], 'c': A['c'] & B['c'],
+                                 'eqs': [q for q in rep_['eqs'] if q in oth['eqs']], 'ids': A['ids'] + B['ids']}
+                            items = [it for k2, it in enumerate(items) if k2 not in (x, y)] + [m]
+                            return items, True
+                    return items, False
+                ch = True
+                while ch:
+                    items, ch = try_merge(items, True)
+                if len(items) > MAX_ALTS:
+                    # too many exact cases: join equal outcomes under the conditions they share (the
+                    # joint guard then covers states of neither; verdicts through such a case are not
+                    # reported as violations)
+                    ch = True
+                    while ch:
+                        items, ch = try_merge(items, False)
+                        if ch:
+                            approx = True
+                for it in items:
+                    a2 = dict(alt)
+                    a2['effects'] = it['E']
+                    a2['dataf'] = it['df']
+                    a2['conds'] = tuple(sorted(it['c'], key=repr))
+                    a2['approx'] = approx or any(exits[i].get('approx') for i in it['ids'])
+                    refined.append((a2, it['ids']))
+        if all_known and len(refined) <= MAX_ALTS:
+            for (alt, ids) in refined:
+                lw.alts.append(alt)
+        else:
+            final = [(alt, idxs) for (alt, idxs, key) in groups]
+            if len(final) > MAX_ALTS:
                 return None
-        useful = any(a['size'] or a['ret'] is not None for a in lw.alts) or any(lw.keep.values())
+            for (alt, ids) in final:
+                conds = None
+                for i in ids:
+                    cs = tuple((c, v) for (c, v) in exits[i]['conds'] if clean(c))
+                    conds = cs if conds is None else tuple(x for x in conds if x in cs)
+                alt['conds'] = conds or ()
+                alt['approx'] = True
+                lw.alts.append(alt)
+        useful = any(a['size'] or a['ret'] is not None or a['effects'] for a in lw.alts) or any(lw.keep.values())
         return lw if useful else None
 
     # -- application ------------------------------------------------------------------------
@@ -407,6 +669,9 @@ class Laws(object):
                 return args[k] if k < len(args) else atom(('undef',))
             if tag == 'init' and len(at) == 2:
                 return eng.load(st, subst(at[1], rep, memo))
+            if tag == 'alloca' or tag == 'ret':
+                # the callee's own temporaries and allocations, made distinct per call site
+                return atom((tag, (site, at[1])) + tuple(at[2:]))
             return None
         pend = {'site': site, 'keep': [], 'tags': [], 'alts': [], 'name': name}
         cellmap = {}
@@ -430,7 +695,8 @@ class Laws(object):
                     conds.append((c2, v))
             if not feasible:
                 continue
-            a = {'stores': [], 'ret': None, 'conds': tuple(conds)}
+            a = {'stores': [], 'ret': None, 'conds': tuple(conds), 'effects': None, 'dataf': [],
+                 'approx': bool(alt.get('approx'))}
             for k, t in alt['size'].items():
                 a['stores'].append((cellmap[(k, 2)], subst(t, rep, memo)))
             r = alt['ret']
@@ -439,6 +705,10 @@ class Laws(object):
                     a['ret'] = ('abs', subst(r[1], rep, memo))
                 else:
                     a['ret'] = ('rel', cellmap[(r[1], 0)], subst(r[2], rep, memo))
+            if alt['effects'] is not None:
+                a['effects'] = tuple(eff_subst(e, rep) for e in alt['effects'])
+            for k, t in alt.get('dataf', {}).items():
+                a['dataf'].append((cellmap[(k, 0)], subst(t, rep, memo)))
             pend['alts'].append(a)
         if pend['alts']:
             st.aux['pend'] = pend
@@ -455,76 +725,150 @@ def eqs_of_conds(conds):
 
 class LawRule(sym.Rule):
     """Applies callee laws at opaque calls; collects the exits of the walked function.
-    Rule state: (retmap, choices): retmap = ((result atom, value), ...), choices =
-    ((site, ((slot atoms...), ((values...), extra equalities) per case)), ...)."""
+    Rule state: (retmap, choices, ops): retmap = ((result atom, value), ...); choices =
+    ((site, slot atoms, cases, callee), ...) for multi-case laws; ops = element operation records
+    in path order (see finalize_ops)."""
     name = 'R01'
+
+    PRIMS = {'ELEM_COPY': ('construct', 'copy'), 'ELEM_MOVE': ('construct', 'move'), 'ELEM_DEFAULT': ('construct', 'default'),
+             'ELEM_CONV': ('construct', 'conv'), 'ELEM_COPY_ASSIGN': ('assign', 'copy'), 'ELEM_MOVE_ASSIGN': ('assign', 'move'),
+             'ELEM_CONV_ASSIGN': ('assign', 'conv'), 'ELEM_DTOR': ('destroy', ''), 'ELEM_SWAP': ('swap', '')}
 
     def __init__(self, laws, spec):
         self.laws = laws
         self.eng = laws.eng
         self.spec = spec
         self.exits = []
+        self.loop_gen = {}
+        self.raw = []
 
     def init(self, f, eng):
-        return ((), ())
+        return ((), (), ())
+
+    def on_cut(self, rs, st, f, hdr):
+        ops = rs[2]
+        k = None
+        for i in range(len(ops) - 1, -1, -1):
+            if ops[i][0] == 'lr' and ops[i][1] == hdr:
+                k = i
+                break
+        if k is None:
+            return
+        self.loop_gen.setdefault((f.name, hdr), set()).add(tuple(ops[k + 1:]))
 
     def on_event(self, rs, ev, st, f, eng):
-        if ev.kind == 'call' and ev.callee is not None and not ev.expanded:
-            pend = st.aux.get('pend')
-            if pend is not None and pend['site'] == ev.site:
-                st.aux.pop('pend', None)
-                retmap, choices = rs
-                for (a, tag) in pend['tags']:
-                    eng.field_tag[a] = tag
-                for (a, v) in pend['keep']:
-                    st.mem[a] = v
-                alts = pend['alts']
-                ra = single_atom(ev.ret) if ev.ret is not None else None
+        retmap, choices, ops = rs
+        if ev.kind == 'loophead':
+            return (retmap, choices, ops + (('lh', ev.site[2]),))
+        if ev.kind == 'havoc' and ev.site and len(ev.site) == 3 and ev.site[1] == 'loop':
+            return (retmap, choices, ops + (('lr', ev.site[2]),))
+        if ev.kind != 'call' or ev.expanded:
+            return rs
+        if ev.callee is None:
+            return (retmap, choices, ops + (('unknown', None),))
+        k = self.laws.orc.kind.get(ev.callee)
+        if k in self.PRIMS and ev.args:
+            what, how = self.PRIMS[k]
+            src = ev.args[1] if len(ev.args) > 1 and k not in ('ELEM_DEFAULT', 'ELEM_DTOR') else None
+            return (retmap, choices, ops + (('prim', what, how, ev.args[0], src),))
+        if ev.callee.startswith('llvm.mem') and ev.args and len(ev.args) >= 3:
+            if sym.is_lin(ev.args[0]) and any(at[0] == 'alloca' for at, c in ev.args[0][2]):
+                return rs      # aggregate copies between locals (iterator objects)
+            return (retmap, choices, ops + (('bytes', ev.callee.split('.')[1], ev.args[0], ev.args[1], ev.args[2]),))
+        pend = st.aux.get('pend')
+        if pend is None or pend['site'] != ev.site:
+            if self.laws.may_touch_elements(ev.callee):
+                ops = ops + (('unknown', ev.callee),)
+            return (retmap, choices, ops)
+        st.aux.pop('pend', None)
+        for (a, tag) in pend['tags']:
+            eng.field_tag[a] = tag
+        for (a, v) in pend['keep']:
+            st.mem[a] = v
+        alts = pend['alts']
+        ra = single_atom(ev.ret) if ev.ret is not None else None
+        direct = ev.ins is not None and ev.ins.res and ev.fn is f and st.env.get(ev.ins.res) == ev.ret
 
-                def retval(r):
-                    if r is None:
-                        return None
-                    if r[0] == 'abs':
-                        return r[1]
-                    return lin_add(eng.load(st, r[1]), r[2])
-                if len(alts) == 1:
-                    a = alts[0]
-                    # the data pointer after the call is read once the size store is in place
-                    for (cell, v) in a['stores']:
-                        st.mem[cell] = v
-                    val = retval(a['ret'])
-                    if val is not None and ra is not None:
-                        if ev.ins is not None and ev.ins.res and ev.fn is f and st.env.get(ev.ins.res) == ev.ret:
-                            st.env[ev.ins.res] = val
-                        retmap = retmap + ((ra, val),)
-                    return (retmap, choices)
-                # several cases: the written cells and the result become choice atoms that are
-                # expanded case by case at the exits
-                cells = []
-                for a in alts:
-                    for (cell, v) in a['stores']:
-                        if cell not in cells:
-                            cells.append(cell)
-                slots = [atom(('choice', ev.site, j)) for j in range(len(cells) + 1)]
-                olds = [eng.load(st, c) for c in cells]
-                for j, c in enumerate(cells):
-                    st.mem[c] = slots[j]
-                cases = []
-                for a in alts:
-                    vals = []
-                    d = dict(a['stores'])
-                    for j, c in enumerate(cells):
-                        vals.append(d.get(c, olds[j]))
-                    rv = retval(a['ret'])
-                    vals.append(rv if rv is not None else atom(('unknown-result', ev.site)))
-                    cases.append((tuple(vals), tuple(eqs_of_conds(a['conds']))))
-                if ra is not None:
-                    if ev.ins is not None and ev.ins.res and ev.fn is f and st.env.get(ev.ins.res) == ev.ret:
-                        st.env[ev.ins.res] = slots[-1]
-                    retmap = retmap + ((ra, slots[-1]),)
-                choices = choices + ((ev.site, tuple(single_atom(x) for x in slots), tuple(cases), pend['name']),)
-                return (retmap, choices)
-        return rs
+        def retval(r):
+            if r is None:
+                return None
+            if r[0] == 'abs':
+                return r[1]
+            return lin_add(eng.load(st, r[1]), r[2])
+
+        def effects_here(a):
+            """the case's effects with the callee's final data pointer renamed to what this path
+            reads from the data cell after the call"""
+            E = a['effects']
+            if E is None:
+                return None
+            m = {}
+            for (cell, t) in a['dataf']:
+                ta = single_atom(t)
+                if ta is not None and not clean(t):
+                    m[ta] = eng.load(st, cell)
+            if m:
+                E = tuple(eff_subst(e, lambda x: m.get(x)) for e in E)
+            return E
+        unknown_eff = self.laws.may_touch_elements(ev.callee)
+
+        def stores_of(a):
+            # the case's size, and its data pointer where the case says what it is: the entry value
+            # (kept), or a buffer obtained in the callee = whatever the cell holds after the call
+            out = list(a['stores'])
+            for (cell, t) in a['dataf']:
+                if clean(t):
+                    out.append((cell, t))
+                else:
+                    out.append((cell, eng.load(st, cell)))
+            return out
+        if len(alts) == 1:
+            a = alts[0]
+            for (cell, v) in stores_of(a):
+                st.mem[cell] = v
+            val = retval(a['ret'])
+            if val is not None and ra is not None:
+                if direct:
+                    st.env[ev.ins.res] = val
+                retmap = retmap + ((ra, val),)
+            E = effects_here(a)
+            if E is not None:
+                ops = ops + (('eff', E),)
+            elif unknown_eff:
+                ops = ops + (('unknown', ev.callee),)
+            if a.get('approx'):
+                ops = ops + (('approx', ev.callee),)
+            return (retmap, choices, ops)
+        # several cases: the written cells, the result and the effects become choice slots that are
+        # expanded case by case at the exits
+        cells = []
+        astores = [stores_of(a) for a in alts]
+        for sts in astores:
+            for (cell, v) in sts:
+                if cell not in cells:
+                    cells.append(cell)
+        slots = [atom(('choice', ev.site, j)) for j in range(len(cells) + 1)]
+        olds = [eng.load(st, c) for c in cells]
+        for j, c in enumerate(cells):
+            st.mem[c] = slots[j]
+        cases = []
+        for a, sts in zip(alts, astores):
+            vals = []
+            d = dict(sts)
+            for j, c in enumerate(cells):
+                vals.append(d.get(c, olds[j]))
+            rv = retval(a['ret'])
+            vals.append(rv if rv is not None else atom(('unknown-result', ev.site)))
+            E = effects_here(a)
+            if E is None and not unknown_eff:
+                E = ()
+            cases.append((tuple(vals), tuple(a['conds']), E, bool(a.get('approx'))))
+        if ra is not None:
+            if direct:
+                st.env[ev.ins.res] = slots[-1]
+            retmap = retmap + ((ra, slots[-1]),)
+        choices = choices + ((ev.site, tuple(single_atom(x) for x in slots), tuple(cases), pend['name']),)
+        return (retmap, choices, ops + (('choice', ev.site),))
 
     def resolve(self, t, retmap):
         if t is None or not retmap:
@@ -538,7 +882,7 @@ class LawRule(sym.Rule):
         return t
 
     def on_exit(self, rs, kind, st, f, eng, rv=None):
-        retmap, choices = rs
+        retmap, choices, ops = rs
         if kind != 'ret':
             if self.spec is not None and kind == 'unwind':
                 self.spec.on_unwind(self, rs, st, f, eng)
@@ -547,44 +891,110 @@ class LawRule(sym.Rule):
         for a, tag in eng.field_tag.items():
             if tag in (0, 1, 2):
                 cells.setdefault(obj_of(a), {})[tag] = a
-        rv0 = self.resolve(rv, retmap)
-        eqs0 = [self.resolve(q, retmap) for q in path_eqs(st)]
-        conds0 = st.conds
-        # expand the cases of multi-case laws met on this path
-        combos = [({}, [], [])]
-        for (site, slots, cases, name) in choices:
-            nxt = []
-            for (m, extra, via) in combos:
-                for ci, (vals, ceqs) in enumerate(cases):
-                    m2 = dict(m)
-                    for sa, v in zip(slots, vals):
-                        m2[sa] = v
-                    nxt.append((m2, extra + list(ceqs), via + [(name, ci, len(cases))]))
-            combos = nxt
-            if len(combos) > MAX_COMBOS:
-                combos = None
-                break
-        if combos is None:
-            combos = [({}, [], [('too many case combinations', 0, 0)])]
-        for (m, extra, via) in combos:
-            def fix(t, m=m):
-                if t is None or not m:
-                    return t
-                for _ in range(4):
-                    t2 = subst(t, lambda a: m.get(a), {})
-                    if t2 == t:
-                        break
-                    t = t2
-                return t
+        # loops are generalised once the whole function has been walked (finish): keep what is needed
+        snap = State_snapshot(st, eng)
+        self.raw.append((retmap, choices, ops, cells, rv, path_eqs(st), st.conds, snap, facts(st)))
 
-            def val(addr, fix=fix):
-                return fix(self.resolve(eng.load(st, addr), retmap))
-            ex = {'cells': cells, 'val': val, 'rv': fix(rv0), 'eqs': [fix(q) for q in eqs0] + [fix(q) for q in extra],
-                  'conds': conds0, 'via': via}
-            if self.spec is not None:
-                self.spec.on_ret(self, ex, st, f, eng)
-            else:
-                self.exits.append(ex)
+    def finish(self, f):
+        eng = self.eng
+        for (retmap, choices, ops, cells, rv, peqs, conds0, snap, fs0) in self.raw:
+            rv0 = self.resolve(rv, retmap)
+            eqs0 = [self.resolve(q, retmap) for q in peqs]
+            combos = [({}, [], [], {})]
+            for (site, slots, cases, name) in choices:
+                nxt = []
+                for (m, extra, via, effs) in combos:
+                    for ci, (vals, cconds, E, apx) in enumerate(cases):
+                        m2 = dict(m)
+                        for sa, v in zip(slots, vals):
+                            m2[sa] = v
+                        e2 = dict(effs)
+                        e2[site] = E
+                        if apx:
+                            e2['approx'] = True
+                        nxt.append((m2, extra + list(cconds), via + [(name, ci, len(cases))], e2))
+                combos = nxt
+                if len(combos) > MAX_COMBOS:
+                    combos = None
+                    break
+            if combos is None:
+                combos = [({}, [], [('too many case combinations', 0, 0)], None)]
+            for (m, extra, via, effs) in combos:
+                def fix(t, m=m):
+                    if t is None or not m:
+                        return t
+                    for _ in range(4):
+                        t2 = subst(t, lambda a: m.get(a), {})
+                        if t2 == t:
+                            break
+                        t = t2
+                    return t
+
+                def val(addr, fix=fix, snap=snap, retmap=retmap):
+                    return fix(self.resolve(snap.load(addr), retmap))
+                xconds = tuple((fix(self.resolve(c_, retmap)), v_) for (c_, v_) in extra)
+                allconds = _Conds(tuple(conds0) + xconds)
+                eqs = [fix(q) for q in eqs0] + [fix(q) for q in path_eqs(_Conds(xconds))]
+                fs = facts(_Conds(tuple((fix(self.resolve(c_, retmap)), v_) for (c_, v_) in conds0) + xconds))
+                # iteration counts of generalised loops are determined by the loop's exit test
+                its = set(a for q in eqs for a in atoms_of(q) if a[0] == 'iter')
+                itmap = {}
+                if its:
+                    for it in sorted(its, key=repr):
+                        K = solve_for(it, eqs)
+                        if K is not None and not any(x[0] == 'iter' for x in atoms_of(K)):
+                            m[it] = K
+                            itmap[it] = K
+                    eqs = [fix(q) for q in eqs]
+                    eqs = [q for q in eqs if const_of(q) is None]
+                ops2 = []
+                bad = effs is None
+                for op in ops:
+                    if op[0] == 'choice':
+                        E = effs.get(op[1]) if effs is not None else None
+                        ops2.append(('eff', E))
+                    else:
+                        ops2.append(op)
+                effects = None if bad else finalize_ops(tuple(ops2), self.loop_gen, f.name, eqs, itmap)
+                if effects is not None:
+                    def fx(t):
+                        return fix(self.resolve(t, retmap)) if t is not None else None
+                    effects = tuple((e[0], e[1], fx(e[2]), fx(e[3]), e[4], fx(e[5]), fx(e[6]), e[7]) for e in effects)
+                apx = bool(effs and effs.get('approx')) or any(op[0] == 'approx' for op in ops)
+                ex = {'cells': cells, 'val': val, 'rv': fix(rv0), 'eqs': eqs, 'conds': tuple(conds0) + xconds, 'via': via,
+                      'effects': effects, 'facts': fs, 'approx': apx}
+                if self.spec is not None:
+                    self.spec.on_ret(self, ex, f, eng)
+                else:
+                    self.exits.append(ex)
+        self.raw = []
+
+
+class _Conds(object):
+    __slots__ = ('conds',)
+
+    def __init__(self, conds):
+        self.conds = conds
+
+
+class State_snapshot(object):
+    """The part of a finished path's state that is read after the walk."""
+    __slots__ = ('mem', 'hv', 'eng')
+
+    def __init__(self, st, eng):
+        self.mem = dict(st.mem)
+        self.hv = dict(st.hv)
+        self.eng = eng
+
+    def load(self, addr):
+        v = self.mem.get(addr)
+        if v is not None:
+            return v
+        if self.hv:
+            vers = tuple(sorted((repr(self.hv[at]) for at, c in addr[2] if at in self.hv)))
+            if vers:
+                return atom(('init', addr, vers))
+        return atom(('init', addr))
 
 
 # ---------------------------------------------------------------------------------------------
@@ -687,6 +1097,9 @@ class Spec(object):
         self.decided = 0
         self.undecided = 0
         self.undecided_ops = {}
+        self.placed = 0
+        self.unplaced = 0
+        self.unplaced_ops = {}
 
     # -- layout of a class: cell addresses relative to `this`, stride -----------------------------
     def layout(self, cls):
@@ -832,6 +1245,7 @@ class Spec(object):
             e['at'] = True
         else:
             return None
+        e['place'] = self.placement_spec(bn, k, A, LEN, S0, D0, s, OS)
         if self.perturb:
             if e.get('at'):
                 return None
@@ -841,7 +1255,226 @@ class Spec(object):
                 e['other_size'] = lin_add(e['other_size'], L(1))
             if e['ret'] is not None:
                 e['ret'] = (e['ret'][0], lin_add(e['ret'][1], L(s)))
+            if e.get('place') is not None and not e['place']:
+                e['place'] = None       # nothing to get wrong in an empty sequence
+            if e.get('place'):
+                # wrong placement specification: every source one element further, values from elsewhere
+                pl = []
+                for (a_, b_, src) in e['place']:
+                    if src[0] == 'old':
+                        src = ('old', lin_add(src[1], L(s)))
+                    elif src[0] == 'input':
+                        src = ('input', lin_add(src[1], L(s)))
+                    elif src[0] == 'val':
+                        src = ('val', lin_add(src[1], L(s)))
+                    elif src[0] == 'default':
+                        src = ('val', atom(('arg', 0)))
+                    pl.append((a_, b_, src))
+                e['place'] = pl
         return e
+
+    def placement_spec(self, bn, k, A, LEN, S0, D0, s, OS):
+        """Where every element of the final sequence comes from (std::vector's specification), as
+        segments of byte offsets relative to data() after the call:
+          (start, end, source) with source =
+            ('old', d)      the element the entry buffer held at (offset - d)
+            ('val', addr)   the value argument at addr (or a temporary constructed from it)
+            ('input', p)    consecutive elements of the caller's array starting at p
+            ('default',)    a value-initialised element
+            ('args',)       constructed from forwarded arguments (emplace)
+        or None when the operation is not described."""
+        ptrish = ('ptr', 'it')
+        E0 = lin_scale(S0, s)
+
+        def P(i):
+            return lin_sub(A(i), D0)
+        Z = L(0)
+        if bn == 'push_back' and k == ('val',):
+            return [(Z, E0, ('old', Z)), (E0, lin_add(E0, L(s)), ('val', A(0)))]
+        if bn == 'emplace_back':
+            src = ('val', A(0)) if k == ('val',) else ('args',)
+            return [(Z, E0, ('old', Z)), (E0, lin_add(E0, L(s)), src)]
+        if bn in ('insert', 'emplace') and k and k[0] == 'it':
+            if k == ('it', 'val'):
+                N, src = L(s), ('val', A(1))
+            elif bn == 'emplace':
+                N, src = L(s), ('args',)
+            elif k == ('it', 'n', 'val'):
+                N, src = lin_scale(A(1), s), ('val', A(2))
+            elif k == ('it', 'il'):
+                N, src = lin_scale(LEN(1), s), ('input', A(1))
+            elif len(k) == 3 and k[1] in ptrish and k[2] in ptrish:
+                N, src = lin_sub(A(2), A(1)), ('input', A(1))
+            else:
+                return None
+            p = P(0)
+            return [(Z, p, ('old', Z)), (p, lin_add(p, N), src), (lin_add(p, N), lin_add(E0, N), ('old', N))]
+        if bn == 'erase' and k == ('it',):
+            p = P(0)
+            return [(Z, p, ('old', Z)), (p, lin_sub(E0, L(s)), ('old', L(-s)))]
+        if bn == 'erase' and k == ('it', 'it'):
+            p = P(0)
+            N = lin_sub(A(1), A(0))
+            return [(Z, p, ('old', Z)), (p, lin_sub(E0, N), ('old', lin_scale(N, -1)))]
+        if bn == 'pop_back' and k == ():
+            return [(Z, lin_sub(E0, L(s)), ('old', Z))]
+        if bn == 'clear' and k == ():
+            return []
+        if bn in ('assign', 'small_vector::small_vector', 'operator=') :
+            kk = k[:-1] if (k and k[-1] == 'alloc') else k
+            ctor = bn == 'small_vector::small_vector'
+            if kk == ('n', 'val') and bn != 'operator=':
+                return [(Z, lin_scale(A(0), s), ('val', A(1)))]
+            if kk == ('n',) and ctor:
+                return [(Z, lin_scale(A(0), s), ('default',))]
+            if kk == ('il',):
+                return [(Z, lin_scale(LEN(0), s), ('input', A(0)))]
+            if len(kk) == 2 and kk[0] in ptrish and kk[1] in ptrish:
+                return [(Z, lin_sub(A(1), A(0)), ('input', A(0)))]
+            if kk == ('other',):
+                od = atom(('init', self.cell(0, self.cur['pos'][0])))
+                return [(Z, lin_scale(OS(0), s), ('input', od))]
+            if kk == () and ctor:
+                return []
+        return None
+
+    def check_placement(self, ex, segs, eng):
+        """-> (verdict, text, detail): verdict 'ok' | 'undecided' | 'bad'"""
+        c = self.cur
+        s = c['lay']['stride']
+        eqs = ex['eqs']
+        effs = ex['effects']
+        if effs is None:
+            return ('undecided', 'an element operation on the path is not understood', None)
+        D0 = atom(('init', self.cell(0)))
+        D1 = ex['val'](self.cell(0))
+        if D1 is None:
+            return ('undecided', 'data pointer unknown', None)
+        ctor = c['bn'] == 'small_vector::small_vector'
+        inplace = (not ctor) and same(D1, D0, eqs)
+        if not inplace and not ctor and clean(D1):
+            return ('undecided', 'data pointer is neither the entry buffer nor a fresh one', None)
+        fs = ex.get('facts') or []
+
+        def prove_le(x, y):
+            """x <= y from the path's order facts: y - x == k * (v - u) + c for a fact u <= v / u < v"""
+            d = sym.canon_divx_sign(lin_sub(y, x))
+            d, _ = reduce_by(d, [sym.canon_divx_sign(q) for q in eqs])
+            cd = const_of(d)
+            if cd is not None:
+                return cd >= 0
+            for (kind, u, v) in fs:
+                g = sym.canon_divx_sign(lin_sub(v, u))
+                g, _ = reduce_by(g, [sym.canon_divx_sign(q) for q in eqs])
+                for k in (1, 2, 4, 8, 16, s):
+                    r = sym.canon_divx_sign(lin_sub(d, lin_scale(g, k)))
+                    cr = const_of(r)
+                    if cr is not None and (cr >= 0 or (kind == 'lt' and cr >= -k)):
+                        return True
+            return False
+
+        def is_temp(t):
+            return sym.is_lin(t) and any(at[0] == 'alloca' for at, co in t[2])
+        temps = {}
+        writes = []
+        for i, e in enumerate(effs):
+            what = e[0]
+            if what in ('bytecopy', 'bytefill', 'swap'):
+                return ('undecided', 'byte-wise or swapping element operation', None)
+            if what == 'destroy':
+                continue
+            if is_temp(e[2]):
+                temps[e[2]] = e
+                continue
+            b = e[3] if e[3] is not None else lin_add(e[2], L(s))
+            writes.append({'i': i, 'what': what, 'how': e[1], 'a': e[2], 'b': b, 'sk': e[4], 'sa': e[5], 'sb': e[6],
+                           'dir': e[7], 'used': False, 'single': e[3] is None})
+
+        def from_val(w, addr, depth=0):
+            if w['sk'] != 'fill' or w['sa'] is None:
+                return False
+            if same(w['sa'], addr, eqs):
+                return True
+            t = temps.get(w['sa'])
+            if t is not None and depth < 3 and t[4] == 'fill' and t[5] is not None:
+                return same(t[5], addr, eqs) or from_val({'sk': 'fill', 'sa': t[5]}, addr, depth + 1)
+            return False
+
+        def rd(t):
+            return show(t, c)
+        for (a_off, b_off, src) in segs:
+            cur = lin_add(D1, a_off)
+            end = lin_add(D1, b_off)
+            steps = 0
+            while not same(cur, end, eqs):
+                steps += 1
+                if steps > 12:
+                    return ('bad', 'the writes do not tile the segment of the final sequence', {'segment': [rd(a_off), rd(b_off)]})
+                w = None
+                for x in writes:
+                    if not x['used'] and same(x['a'], cur, eqs):
+                        w = x
+                        break
+                if w is None:
+                    off0 = lin_sub(cur, D1)
+                    if src[0] == 'old':
+                        stay = inplace and same(lin_sub(lin_add(D0, off0), src[1]), cur, eqs)
+                    elif src[0] == 'input':
+                        stay = same(lin_add(src[1], lin_sub(off0, a_off)), cur, eqs)
+                    else:
+                        stay = False
+                    if stay and not any(not x['used'] and same(x['b'], end, eqs) for x in writes):
+                        break      # elements that stay where they are and are not written
+                    return ('bad', 'part of the final sequence [data()+%s, data()+%s) that must come from %s is not written '
+                            'by any element operation starting at data()+%s' % (rd(a_off), rd(b_off), src[0], rd(lin_sub(cur, D1))),
+                            {'segment': [rd(a_off), rd(b_off)], 'expected_source': src[0]})
+                w['used'] = True
+                off = lin_sub(cur, D1)
+                # the source of this piece
+                if src[0] == 'old':
+                    want = lin_sub(lin_add(D0, off), src[1])
+                    ok = w['sa'] is not None and w['sk'] in ('range', 'fill') and same(w['sa'], want, eqs) and \
+                        (w['sk'] == 'range' or w['single'])
+                    if ok and inplace and const_of(src[1]) != 0 and w['sk'] == 'range':
+                        # overlapping shift inside one buffer: the direction must not overwrite what is
+                        # still to be read, unless source and destination only touch
+                        d = src[1]
+                        right = all(co > 0 for at, co in d[2]) and d[1] >= 0      # moves towards the end
+                        left = all(co < 0 for at, co in d[2]) and d[1] <= 0
+                        touch = prove_le(w['sb'], w['a']) if right else prove_le(w['b'], w['sa'])
+                        if (right or left) and not touch and w['dir'] != (-1 if right else 1):
+                            return ('bad', 'elements are shifted %s inside the buffer in %s order: sources are overwritten before '
+                                    'they are read' % ('towards the end' if right else 'towards the front',
+                                                       'ascending' if w['dir'] > 0 else 'descending'),
+                                    {'write': [rd(w['a']), rd(w['b'])], 'from': [rd(w['sa']), rd(w['sb'])]})
+                    if ok and inplace:
+                        # an earlier write into what this one reads
+                        for x in writes:
+                            if x['i'] < w['i'] and (same(x['a'], w['sa'], eqs) or
+                                                    (w['sb'] is not None and same(x['b'], w['sb'], eqs))):
+                                return ('bad', 'existing elements are read after they have been overwritten',
+                                        {'read': [rd(w['sa']), rd(w['sb'])], 'overwritten_by_write_to': [rd(x['a']), rd(x['b'])]})
+                elif src[0] == 'val':
+                    ok = from_val(w, src[1])
+                elif src[0] == 'input':
+                    want = lin_add(src[1], lin_sub(off, a_off))
+                    ok = w['sa'] is not None and same(w['sa'], want, eqs) and (w['sk'] == 'range' or w['single'])
+                elif src[0] == 'default':
+                    ok = w['sk'] is None and w['how'] == 'default'
+                else:      # forwarded arguments
+                    ok = True
+                if not ok:
+                    return ('bad', 'the elements written to [data()+%s, data()+%s) do not come from where std::vector takes them (%s)'
+                            % (rd(lin_sub(w['a'], D1)), rd(lin_sub(w['b'], D1)), src[0]),
+                            {'write': [rd(w['a']), rd(w['b'])], 'source': [w['sk'], rd(w['sa']) if w['sa'] is not None else None],
+                             'expected_source': [src[0]] + [rd(x) for x in src[1:]]})
+                cur = w['b']
+        stray = [x for x in writes if not x['used'] and not same(x['a'], x['b'], eqs)]
+        if stray:
+            x = stray[0]
+            return ('bad', 'an element operation writes [%s, %s), which is not part of what the operation specifies'
+                    % (rd(x['a']), rd(x['b'])), {'write': [rd(x['a']), rd(x['b'])], 'kind': x['what']})
+        return ('ok', '', None)
 
     # -- verdicts -------------------------------------------------------------------------------
     def rep(self, rule, ok, what, detail=None):
@@ -860,6 +1493,20 @@ class Spec(object):
             d.update(detail or {})
             self.reports[dk] = Report(rule, False, {'operation': sig, 'defect': what},
                                       '%s: %s: %s (%s)' % (rule, sig, what, self.cfg.name), d)
+
+    def placement_ok(self, c):
+        # explicit element operations only: class-type elements (trivially copyable ones are moved
+        # with memcpy/memmove and stored by plain stores - not modelled)
+        return self.cfg.elem in ('NM', 'CO', 'MO', 'MOT')
+
+    def eff_text(self, e, c):
+        b = show(e[3], c) if e[3] is not None else 'one element'
+        srcs = ''
+        if e[4] == 'fill':
+            srcs = ' <- the object at %s' % show(e[5], c)
+        elif e[4] == 'range':
+            srcs = ' <- [%s, %s)' % (show(e[5], c), show(e[6], c))
+        return '%s %s [%s, %s)%s%s' % (e[0], e[1], show(e[2], c), b, srcs, ' descending' if e[7] < 0 else '')
 
     def via(self, ex):
         orc = self.laws.orc
@@ -882,7 +1529,7 @@ class Spec(object):
             else:
                 self.rep('R01.3', False, 'at() raises on a path on which `size() <= i` is not established')
 
-    def on_ret(self, lr, ex, st, f, eng):
+    def on_ret(self, lr, ex, f, eng):
         e = self.expected()
         c = self.cur
         eqs = ex['eqs']
@@ -890,7 +1537,7 @@ class Spec(object):
         if e.get('at'):
             S0 = atom(('init', self.cell(2)))
             i = atom(('arg', 1))
-            fs = facts(st)
+            fs = ex['facts']
             if not any(k == 'lt' and x == i and y == S0 for (k, x, y) in fs):
                 self.rep('R01.3', False, 'at() returns on a path on which `i < size()` is not established')
             elif not same(ex['rv'], lin_add(D0, lin_scale(i, c['lay']['stride'])), eqs):
@@ -940,6 +1587,26 @@ class Spec(object):
                           'specified': show(want, c), 'path_equalities': [show(q, c) for q in eqs][:6],
                           'through': self.via(ex)})
                 self.decided += 1
+        segs = e.get('place')
+        if segs is not None and self.placement_ok(c):
+            verdict, text, detail = self.check_placement(ex, segs, eng)
+            if verdict == 'bad' and ex.get('approx'):
+                verdict, text = 'undecided', 'a case of an internal function was approximated (too many distinct cases)'
+            if verdict == 'ok':
+                self.rep('R01.4', True, 'placement law')
+                self.placed += 1
+            elif verdict == 'bad':
+                d = dict(detail or {})
+                d['through'] = self.via(ex)
+                d['path_equalities'] = [show(q, c) for q in eqs][:6]
+                if ex['effects'] is not None:
+                    d['element_operations'] = [self.eff_text(x, c) for x in ex['effects']][:10]
+                self.rep('R01.4', False, text, d)
+                self.placed += 1
+            else:
+                self.unplaced += 1
+                sig = '%s(%s)' % (c['bn'], ', '.join(c['kinds']))
+                self.unplaced_ops[sig + ': ' + text] = self.unplaced_ops.get(sig + ': ' + text, 0) + 1
         if dirty:
             self.undecided += 1
             sig = '%s(%s)' % (c['bn'], ', '.join(c['kinds']))
@@ -1016,5 +1683,6 @@ def analyse_tu(eng, cfg):
         control = {'flagged': len(flagged), 'wrongly_passed': sorted(passed - flagged)[:10], 'passed_somewhere': len(passed)}
     return {'reports': list(spec.reports.values()), 'functions': n, 'decided': spec.decided, 'control': control,
             'undecided_paths': spec.undecided, 'undecided_ops': spec.undecided_ops,
+            'placed': spec.placed, 'unplaced': spec.unplaced, 'unplaced_ops': spec.unplaced_ops,
             'operations': sorted(ops), 'laws': laws.stats,
             'law_functions': sorted(base_name(eng.oracle.pretty.get(k, k)) for k, v in laws.memo.items() if v is not None)}
